@@ -1,6 +1,7 @@
 (* C09 -- find_node/get_peers node lists: enumeration of the nearest nodes.
    Property theorems only (table part; the take-8-per-family part is in the handler model). *)
-From BT Require Import model.Prelude model.Table proofs.Table_Facts proofs.TableInv_Facts proofs.TableOps_Facts.
+From BT Require Import model.Prelude model.Compact model.Krpc model.Table model.Handler.
+From BT Require Import proofs.Table_Facts proofs.TableInv_Facts proofs.TableOps_Facts proofs.Closest_Facts.
 From Coq Require Import Permutation.
 Open Scope Z_scope.
 
@@ -22,7 +23,44 @@ Theorem c09_enumeration_all_histories : forall id rts ops now target, Forall op_
               (live_nodes now (fold_left tstep ops (init_table id rts))).
 Proof. intros. apply c09_enumeration_perm. apply table_inv_all_histories. assumption. Qed.
 
+
+(* the node lists of a find_node / get_peers reply (handler part): distinct contacts, each a live entry of the
+   table, never the node itself *)
+Theorem c09_reply_distinct : forall now t own_v6 target w, TInv t ->
+  let '(n4, n6) := find_closest now t own_v6 target w in
+  NoDup (map (fun h => (n_id h, n_addr h)) n4) /\ NoDup (map (fun h => (n_id h, n_addr h)) n6) /\
+  (forall h, In h (n4 ++ n6) -> exists n, In n (live_nodes now t) /\ h = nodeh_of n /\ n_id h <> local_id t).
+Proof. exact reply_nodes_distinct. Qed.
+
+(* how many: min(8, live nodes of the family) -- no live node is withheld while there is room *)
+Theorem c09_reply_count : forall now t own_v6 target w, TInv t ->
+  let '(n4, n6) := find_closest now t own_v6 target w in
+  let fam v6 := length (filter (fun n => Bool.eqb (a_v6 (nd_addr n)) v6) (live_nodes now t)) in
+  match (match w with Some x => x | None => if own_v6 then WantV6 else WantV4 end) with
+  | WantV4 => length n4 = Nat.min Consts.handler_nodes_take_v4_nat (fam false)
+  | WantV6 => length n6 = Nat.min Consts.handler_nodes_take_v6_nat (fam true)
+  | WantBoth => length n4 = Nat.min Consts.handler_nodes_take_v4_nat (fam false) /\
+                length n6 = Nat.min Consts.handler_nodes_take_v6_nat (fam true)
+  end.
+Proof. exact reply_nodes_count. Qed.
+
+(* nearest bucket first: the enumeration begins with the live nodes of the bucket the target falls into
+   (sorted bucket of that index, then the nodes of the catch-all last bucket whose ideal index it is) *)
+Theorem c09_nearest_bucket_first : forall now t target,
+  let bs := buckets t in
+  let full := Nat.eqb (length bs) max_buckets in
+  let sorted := if full then bs else removelast bs in
+  let assorted := if full then [] else List.last bs [] in
+  let i := lcp (local_id t) target in
+  exists rest, closest_nodes now t target =
+    (filter (is_pingable now) (nth i sorted [])
+     ++ filter (fun n => is_pingable now n && Nat.eqb (lcp (local_id t) (nd_id n)) i) assorted) ++ rest.
+Proof. exact closest_starts_at_target_bucket. Qed.
+
 Print Assumptions c09_walk_perm.
+Print Assumptions c09_reply_distinct.
+Print Assumptions c09_reply_count.
+Print Assumptions c09_nearest_bucket_first.
 Print Assumptions c09_enumeration_perm.
 Print Assumptions c09_enumeration_all_histories.
 
